@@ -193,7 +193,76 @@ def check_arg_role(R, prog, helpers):
 
 
 # ---------------------------------------------------------------------------- chain order
+def semantic_parse_command_line(prog):
+    """fold parse_command_line on argument vectors with 0..3 `-T` chunks: the formula parser gets chunk 0 without the program name, the
+    transformation parser gets chunks 1.. one by one in command line order, and the results come back in that order"""
+    import types
+    from ..fold import Folder, Raised
+    from ..ql import Unknown
+    pc = prog.func("cnfgen.clitools.cnfgen", "parse_command_line")
+    samples = [["cnfgen", "php", "3"], ["cnfgen", "php", "3", "-T", "xor", "2"], ["cnfgen", "op", "4", "-T", "xor", "2", "-T", "shuffle"],
+               ["cnfgen", "-q", "tseitin", "5", "-T", "shuffle", "-v", "-T", "flip", "-T", "or", "3"], ["cnfgen"], ["cnfgen", "-T", "flip"],
+               ["cnfgen", "php", "3", "-T"], ["cnfgen", "php", "3", "-T", "-T", "flip"]]
+    for argv in samples:
+        chunks = [[]]
+        for a in argv:
+            if a == "-T":
+                chunks.append([])
+            else:
+                chunks[-1].append(a)
+        want_calls = [("F", tuple(chunks[0][1:]))] + [("T", tuple(c)) for c in chunks[1:]]
+        calls = []
+        fp, tp = types.SimpleNamespace(tag="F"), types.SimpleNamespace(tag="T")
+
+        class Sink(dict):
+            pass
+        f = Folder(env={}, sinks={"parse_args": None})
+        # the receiver tells which parser is used: evaluate through a callable that records it
+        def parse_F(x):
+            calls.append(("F", tuple(x)))
+            return ("F", tuple(x))
+
+        def parse_T(x):
+            calls.append(("T", tuple(x)))
+            return ("T", tuple(x))
+        fp.parse_args, tp.parse_args = parse_F, parse_T
+        f = Folder(env={}, sinks=())
+        try:
+            got = f.call_function(pc.node, [list(argv), fp, tp], {})
+        except Raised as r:
+            return False, "parse_command_line(%s) raises %s" % (argv, r.cls)
+        except Unknown as e:
+            return None, "cannot fold parse_command_line(%s): %s" % (argv, e)
+        want = (("F", tuple(chunks[0][1:])), [("T", tuple(c)) for c in chunks[1:]])
+        if calls != want_calls or not (isinstance(got, tuple) and len(got) == 2 and got[0] == want[0] and list(got[1]) == want[1]):
+            return False, ("for the command line %s the parsers are called with %s and the result is %s; expected the formula part %s and then "
+                           "the transformations %s in this order" % (argv, calls, got, want[0], want[1]))
+    return True, "%d command lines folded: chunk 0 to the formula parser, chunks 1.. to the transformation parser in order" % len(samples)
+
+
 def check_chain_order(R, prog):
+    from ._shared import with_semantics
+    pc = prog.func("cnfgen.clitools.cnfgen", "parse_command_line")
+    T0 = Result(P, "")
+    _shape_chain_order(T0, prog)
+    # the findings about parse_command_line are subject to the folded semantics; the rest of the rule is kept as it is
+    mine = [f for f in T0.findings if f.function == "parse_command_line"]
+
+    def shape(T):
+        for o in T0.obligations:
+            if o["status"] == "discharged":
+                T.ok(o["rule"], o["instance"], o["where"], nontrivial=o["nontrivial"])
+        for f in mine:
+            T.bad(f)
+    with_semantics(R, P, shape, semantic_parse_command_line(prog), "parse_command_line splits at -T in order", pc, rule="CHAIN-ORDER")
+    for f in T0.findings:
+        if f not in mine:
+            R.bad(f)
+    for u in T0.unproven:
+        R.unknown(u["rule"], u["instance"], u["where"], u["why"])
+
+
+def _shape_chain_order(R, prog):
     pc = prog.func("cnfgen.clitools.cnfgen", "parse_command_line")
     body = pc.node.body
     txt = [src(s) for s in stmts_in(pc.node)]
